@@ -13,6 +13,7 @@ var registry = map[string]core.Harness{
 	"C06": C06{},
 	"C07": C07{},
 	"C10": C10{},
+	"C41": C41{},
 }
 
 func TestSim(t *testing.T) { core.WorkerMain(t, registry) }
